@@ -28,7 +28,9 @@
                    ObjectServer::{at, add_arc_interface, remove, interface} inside the object_server module:
                    each site is discharged by a recognised guard (unwrap of get_child_mut(.., true).0 given
                    NO-CREATE; SignalEmitter::new::<ObjectPath> cannot fail) or a table line with its
-                   invariant; anything else is a violation.
+                   invariant (a line covers a fixed number of sites; a further site with the same key is
+                   not covered); anything else is a violation.  Sites inside tracing macro expansions are
+                   skipped.  Instance key = function : panic-callee(source of the operand).
 
 Dropped: that `remove` computes the right parent path / last segment for remove_node (string fold in a
 closure; no exact structural clause); equality of what `interface`, method calls and introspection *show*
@@ -425,13 +427,13 @@ def no_create(ctx, f):
 
 
 def reads_field(f, fn_id, owner, field, depth=0, seen=None):
-    """fn (with its closures, and zbus callees up to depth 2) mentions owner.field"""
+    """fn (with its closures, and zbus callees up to depth 2) reads owner.field (shared borrow / copy, not a mutation)"""
     seen = seen if seen is not None else set()
     if fn_id in seen or depth > 2:
         return False
     seen.add(fn_id)
     for b in fam(f, fn_id):
-        if field_places(b, owner, field):
+        if any(how in ("shared", "copy") for bl, ln, how in field_places(b, owner, field)):
             return True
         for c in mir.calls(b):
             callee = c.c.get("res") or c.c.get("fn") or ""
